@@ -90,6 +90,33 @@ def _main(run):
         except Exception:
             okd = False
         ob(f'dynamic-variant[{sym}]', okd, key=f'dynamic-variant:{sym}')
+        # the lookups are classmethods: every element class and every atom is a receiver, and the number table is memoised on first use.
+        # With the memo cold, a lookup through the class / an atom of this element answers as `Element` does, and `Element` still answers
+        # correctly afterwards (the answer depends neither on the receiver nor on which receiver filled the memo).
+        z2 = z % 118 + 1
+        c2, s2 = by_z.get(z2, [None])[0], SYMBOLS[z2 - 1]
+        for rname, mk in (('class', lambda: cls), ('atom', lambda: cls())):
+            try:
+                memo = getattr(Element, '__class_cache__', None)
+                if isinstance(memo, dict):
+                    for k in [k for k in memo if isinstance(k, str)]:
+                        del memo[k]
+                r = mk()
+                okr = r.from_atomic_number(z2) is c2 and r.from_symbol(s2) is c2 and Element.from_atomic_number(z) is cls \
+                    and Element.from_atomic_number(z2) is c2 and Element.from_symbol(sym) is cls
+            except Exception:
+                okr = False
+            ob(f'lookup-receiver-independent[{sym},{rname}]', okr, key=f'lookup-receiver:{sym}:{rname}',
+               what=f'first number lookup of a cold table through the {rname} {sym}: from_atomic_number({z2}) / from_symbol({s2!r}) through it, '
+                    f'or Element.from_atomic_number afterwards, does not give the tabulated class',
+               witness={'receiver': f'{rname} {sym}', 'asked': z2, 'then': z})
+        for vname, v, base in (('query', q, QueryElement), ('dynamic', d, DynamicElement)):
+            v2 = getattr(pt, f'{"Query" if vname == "query" else "Dynamic"}{s2}', None)
+            try:
+                okv = v is not None and v2 is not None and v.from_atomic_number(z2) is v2 and v.from_symbol(s2) is v2 and base.from_atomic_number(z) is v
+            except Exception:
+                okv = False
+            ob(f'lookup-receiver-independent[{sym},{vname}-class]', okv, key=f'lookup-receiver:{sym}:{vname}')
 
         # clause 2 -----------------------------------------------------------------------------------------------------
         a = cls()
